@@ -70,6 +70,19 @@ def run(ctx):
         wa = False  # racing accept() itself is the start-up window (DESIGN 7.4), not claimed
         extra.append({"seed": ctx.seed + k, "jitter": 0.0, "switchinterval": 1e-6, "payloads": {"q1": {"flavour": fl}, "q2": {"flavour": fl}, "q3": {"flavour": "trio" if wa else fl}},
                       "script": [{"op": "race_adopts", "ps": ["q1", "q2", "q3"], "with_accept": wa}] + ([] if wa else [{"op": "accept"}]) + [{"op": "wait_running"}, {"op": "polls", "n": 3}], "shape": "targeted-prestart-race"})
+    # adoption from inside a coroutine payload's own cleanup while the runtime shuts down
+    for f in ("asyncio", "trio"):
+        for late in scen.FLAVS:
+            for trig in ([{"op": "shutdown", "ctx": "thread", "wait": False}], [{"op": "end", "p": "f", "how": "exc:UserExc"}], [{"op": "sigint"}]):
+                extra.append({"seed": ctx.seed, "jitter": 0.0, "payloads": {"f": {"flavour": "threading"}, "c1": {"flavour": f, "cleanup": 1, "adopt_in_cleanup": "late"}, "c2": {"flavour": f, "cleanup": 2, "shielded": 1 if f == "trio" else 0}, "late": {"flavour": late, "args": [3]}},
+                              "script": [{"op": "adopt", "p": "c1"}, {"op": "adopt", "p": "c2"}, {"op": "adopt", "p": "f"}, {"op": "accept"}, {"op": "wait_running"}, {"op": "wait_start", "p": "c1"}, {"op": "wait_start", "p": "c2"}, {"op": "wait_start", "p": "f"}]
+                              + trig + [{"op": "wait_end"}], "shape": "targeted-adopt-in-cleanup"})
+    # the same ServiceRunner accepts a second time after its first run ended through a failure:
+    # payloads queued before the FIRST start must not be started again
+    for f in scen.FLAVS:
+        extra.append({"seed": ctx.seed, "jitter": 0.0, "reaccept": True, "payloads": {"q1": {"flavour": f, "args": [1]}, "q2": {"flavour": "threading"}, "f": {"flavour": "asyncio"}},
+                      "script": [{"op": "adopt", "p": "q1"}, {"op": "adopt", "p": "q2"}, {"op": "adopt", "p": "f"}, {"op": "accept"}, {"op": "wait_running"}, {"op": "wait_start", "p": "q1"}, {"op": "wait_start", "p": "q2"}, {"op": "wait_start", "p": "f"},
+                                 {"op": "end", "p": "f", "how": "exc:UserExc"}, {"op": "wait_end"}, {"op": "reaccept", "ms": 200}], "shape": "targeted-reaccept-same-runner"})
     # adopt() of a trio payload from inside an asyncio payload while a trio payload is inside a
     # blocking execute() into asyncio: adopt must return without waiting (forced by parking the
     # adopter right before it hands the payload to the trio thread)
